@@ -54,11 +54,12 @@ def c14(tier=None):
     c01.add_bypattern_suite(c, samples)
     scs = [gen_lifecycle(c.rng, c.rng.choice([2, 3]), 1, takeover=0.5) for _ in range(n_of(c, 6, 80))]
     run_scenarios(c, "routing-after-take-over-and-session-end", scs, samples)
+    run_scenarios(c, "everything-mixed", [brokerlib.gen_soup(c.rng, nn=c.rng.choice([2, 3])) for _ in range(n_of(c, 6, 100))], samples)
     return c.finish(samples=samples, rule="case = one placement of publishers/subscribers over 2-3 nodes, publishes under every sampled subset of unreachable / failing destinations; each node's log and each client's packets observed")
 
 
 def c11(tier=None):
-    c = Check("C11", ["Wasp.Properties.Facts.Wiring", "Wasp.Properties.AnswerLost", "Wasp.Properties.C11", "Wasp.Properties.C11Time", "Wasp.Properties.Reachable", "Wasp.Properties.C09", "Wasp.Properties.C08", "Wasp.Properties.Facts.C11"], tier)
+    c = Check("C11", ["Wasp.Properties.Facts.Wiring", "Wasp.Properties.AnswerLost", "Wasp.Properties.C11Record", "Wasp.Properties.C11", "Wasp.Properties.C11Time", "Wasp.Properties.Reachable", "Wasp.Properties.C09", "Wasp.Properties.C08", "Wasp.Properties.Facts.C11"], tier)
     c.build()
     samples = []
     scs = [gen_lifecycle(c.rng, c.rng.choice([1, 2, 3]), 1, takeover=0.15) for _ in range(n_of(c, 12, 160))]
@@ -69,13 +70,14 @@ def c11(tier=None):
     scs = [brokerlib.gen_answer_lost(c.rng) for _ in range(n_of(c, 5, 80))]
     run_scenarios(c, "session-ends-when-an-answer-cannot-be-written", scs, samples)
     brokerlib.add_refused_connect_suite(c, samples)
+    run_scenarios(c, "everything-mixed", [brokerlib.gen_soup(c.rng) for _ in range(n_of(c, 8, 150))], samples)
     brokerlib.add_nodefail_suites(c, samples)
     brokerlib.add_timing_suites(c, samples)
     return c.finish(samples=samples, rule="case = one session script (connect, subscribe sets, publish, ping, DISCONNECT / connection loss / displacement) on 1-3 nodes; gossip fully delivered after each change (oracle on packets and on every node's listing) or link by link in random order (model comparison)")
 
 
 def c12(tier=None):
-    c = Check("C12", ["Wasp.Properties.Facts.Wiring", "Wasp.Properties.C12", "Wasp.Properties.C05C12E2E", "Wasp.Properties.Facts.C12"], tier)
+    c = Check("C12", ["Wasp.Properties.Facts.Wiring", "Wasp.Properties.C11Record", "Wasp.Properties.C12", "Wasp.Properties.C05C12E2E", "Wasp.Properties.Facts.C12"], tier)
     c.build()
     samples = []
     scs = [gen_lifecycle(c.rng, c.rng.choice([1, 2, 2]), 1, takeover=0.6) for _ in range(n_of(c, 12, 160))]
@@ -83,11 +85,12 @@ def c12(tier=None):
     scs = brokerlib.corpus(c.rng, ["takeover-out-of-order", "removal-overtakes-creation", "takeover-then-stale-snapshot", "takeover-with-unacked-delivery", "displacer-gone-before-ping", "concatenation-collision", "empty-client-id-takeover"])
     scs += [gen_lifecycle(c.rng, c.rng.choice([2, 3]), 1, takeover=0.5, fine_gossip=True) for _ in range(n_of(c, 8, 120))]
     run_scenarios(c, "takeover-gossip-schedules", scs, samples)
+    run_scenarios(c, "everything-mixed", [brokerlib.gen_soup(c.rng, nn=c.rng.choice([2, 3])) for _ in range(n_of(c, 8, 150))], samples)
     return c.finish(samples=samples, rule="case = one script with pairs / chains of connections sharing a client identifier on the same or different nodes, old-session ping / subscribe / disconnect and gossip deliveries interleaved")
 
 
 def c13(tier=None):
-    c = Check("C13", ["Wasp.Properties.Facts.Wiring", "Wasp.Properties.AnswerLost", "Wasp.Properties.C13", "Wasp.Properties.E2ERetainWill", "Wasp.Properties.Facts.C13"], tier)
+    c = Check("C13", ["Wasp.Properties.Facts.Wiring", "Wasp.Properties.AnswerLost", "Wasp.Properties.C11Record", "Wasp.Properties.C13", "Wasp.Properties.E2ERetainWill", "Wasp.Properties.Facts.C13"], tier)
     c.build()
     samples = []
     scs = [gen_converged(c.rng, c.rng.choice([1, 2, 3]), 1, c.rng.choice([8, 12]), {"end": 5, "connect": 4, "sub": 4, "pub": 2}) for _ in range(n_of(c, 12, 160))]
@@ -95,6 +98,7 @@ def c13(tier=None):
     scs = brokerlib.corpus(c.rng, ["connack-unwritable", "suback-unwritable", "clean-end-overtakes-creation-then-node-fails", "removal-overtakes-creation", "returning-client-will"])
     scs += [brokerlib.gen_answer_lost(c.rng) for _ in range(n_of(c, 5, 80))]
     run_scenarios(c, "wills-corpus-and-lost-answers", scs, samples)
+    run_scenarios(c, "everything-mixed", [brokerlib.gen_soup(c.rng) for _ in range(n_of(c, 8, 150))], samples)
     brokerlib.add_nodefail_suites(c, samples)
     return c.finish(samples=samples, rule="case = one script in which sessions with wills (topic, payload, QoS, retain varied) end by DISCONNECT or connection loss, watchers on 1-3 nodes; plus node-failure cases")
 
@@ -108,6 +112,7 @@ def c17(tier=None):
     scs = brokerlib.corpus(c.rng, ["same-client-id-two-tenants", "same-client-id-overlapping-qos2", "concatenation-collision", "topic-starts-with-mount-name"])
     scs += [gen_lifecycle(c.rng, c.rng.choice([1, 2]), 2, takeover=0.6) for _ in range(n_of(c, 8, 120))]
     run_scenarios(c, "tenants-shared-client-ids", scs, samples)
+    run_scenarios(c, "everything-mixed-two-tenants", [brokerlib.gen_soup(c.rng, mounts=c.rng.choice([2, 3])) for _ in range(n_of(c, 8, 150))], samples)
     # wills of a failed node's sessions stay inside their own mount points
     scs = [brokerlib.gen_nodefail(c.rng, clean=False, mounts=2) for _ in range(n_of(c, 1, 8))]
     run_scenarios(c, "tenants-node-failure-wills", scs, samples)
